@@ -439,7 +439,7 @@ package zygo
 // must have put it back on EVERY error exit after that point; inner evaluation
 // is abstracted (the whole heap is havocked), so these proofs depend only on
 // the restore being on every error path.
-//@ stable C05 Zlisp | datastack, addrstack | NewZlispWithFuncs, (*Zlisp).Clone, (*Zlisp).Duplicate
+//@ stable C05 Zlisp | datastack, addrstack, loopstack | NewZlispWithFuncs, (*Zlisp).Clone, (*Zlisp).Duplicate
 //@ macro distinctStacks(e *Zlisp) bool = e == nil || (e.datastack != nil && e.addrstack != nil && e.linearstack != nil && e.datastack != e.addrstack && e.datastack != e.linearstack && e.addrstack != e.linearstack)
 //@ typeinv C05 Zlisp | datastack, addrstack, linearstack | NewZlispWithFuncs, (*Zlisp).Clone, (*Zlisp).Duplicate, (*Zlisp).restoreControlState, (*SexpLazyArg).Force! | distinctStacks(self)
 
@@ -610,11 +610,11 @@ package zygo
 //@ C09 preserves Generator.Tail except gen
 
 //@ func (*Generator).NewSubGenerator
-//@ C09 ensures fresh(r0) && !r0.Tail
+//@ C05,C09 ensures fresh(r0) && !r0.Tail && r0.env == gen.env
 //@ C09 preserves Generator.Tail
 
 //@ func NewGenerator
-//@ C09 ensures fresh(r0) && !r0.Tail && len(r0.instructions) == 0 && r0.scopes == 0
+//@ C05,C09 ensures fresh(r0) && !r0.Tail && len(r0.instructions) == 0 && r0.scopes == 0 && r0.env == env
 //@ C09 preserves Generator.Tail
 
 //@ func (*Generator).AddInstruction
@@ -865,3 +865,11 @@ package zygo
 //@ maporder C20 functions.go
 //@ maporder C20 builders.go
 //@ maporder C20 typeutils.go
+
+// The compile-time loop stack is part of "back at rest": a for loop that fails to
+// compile must take its loop record off again on every exit (the record is popped
+// by a deferred call).  Nested forms are assumed to leave the loop stack as they
+// found it (induction hypothesis); the for compiler is proved to.
+//@ clauseall \(\*Generator\)\.(Generate[A-Za-z]*|generateSyntaxQuote[A-Za-z]*) :: assume C05 ensures loopstack-as-found: gen.env.loopstack.tos == old(gen.env.loopstack.tos)
+//@ func (*Generator).GenerateForLoop
+//@ C05 ensures loopstack-balanced: gen.env.loopstack.tos == old(gen.env.loopstack.tos)
